@@ -140,6 +140,7 @@ func WrapHandler(waf coraza.WAF, h http.Handler) http.Handler {
 			tx.DebugLogger().Error().Err(err).Msg("Failed to process request")
 			return
 		} else if it != nil {
+			setRedirectLocation(w.Header(), it)
 			w.WriteHeader(obtainStatusCodeFromInterruptionOrDefault(it, http.StatusOK))
 			return
 		}
@@ -159,7 +160,7 @@ func WrapHandler(waf coraza.WAF, h http.Handler) http.Handler {
 }
 
 // obtainStatusCodeFromInterruptionOrDefault returns the desired status code derived from the interruption
-// on a "deny" action or a default value.
+// on a "deny" or "redirect" action or a default value.
 func obtainStatusCodeFromInterruptionOrDefault(it *types.Interruption, defaultStatusCode int) int {
 	if it.Action == "deny" {
 		statusCode := it.Status
@@ -169,5 +170,16 @@ func obtainStatusCodeFromInterruptionOrDefault(it *types.Interruption, defaultSt
 
 		return statusCode
 	}
+	if it.Action == "redirect" && it.Status != 0 {
+		// the redirect action always carries a 3xx status (302 unless the rule sets another one)
+		return it.Status
+	}
 	return defaultStatusCode
+}
+
+// setRedirectLocation points the Location header to the target of a "redirect" interruption.
+func setRedirectLocation(h http.Header, it *types.Interruption) {
+	if it.Action == "redirect" && it.Data != "" {
+		h.Set("Location", it.Data)
+	}
 }
